@@ -65,6 +65,7 @@ def make_pool(darsia, rng):
         P["C"] = darsia.OpticalImage(rs.randint(0, 255, size=(H, W, 3)).astype(np.uint8), color_space="RGB", dimensions=[0.5 * H, 0.25 * W])
         P["Cf"] = darsia.OpticalImage(rs.rand(H, W, 3).astype(np.float32), color_space="RGB", dimensions=[0.5 * H, 0.25 * W])
         P["S"] = darsia.ScalarImage(rs.randint(1, 9, size=(H, W, 3)).astype(float), series=True, time=[0.0, 1.0, 2.0], dimensions=[0.5 * H, 0.25 * W])
+        P["Sone"] = darsia.ScalarImage(rs.randint(1, 9, size=(H, W)).astype(float), dimensions=[0.5 * H, 0.25 * W])
         P["Wt"] = darsia.ScalarImage(rs.randint(1, 4, size=(2 * H, 2 * W)).astype(np.float32), dimensions=[0.5 * H, 0.25 * W], name="weight")
         P["Wsame"] = darsia.ScalarImage(rs.randint(1, 4, size=(H, W)).astype(float), dimensions=[0.5 * H, 0.25 * W])
         P["V"] = darsia.Image(rs.randint(1, 9, size=(2, 3, 2)).astype(float), space_dim=3, dimensions=[1.0, 1.5, 2.0], scalar=True)
@@ -124,6 +125,8 @@ def registry(darsia):
     add("weight_array_per_slice", lambda P, r: darsia.weight(P["S"], np.array([1.0, 2.0, 3.0])))
     add("superpose", lambda P, r: darsia.superpose([P["A"], P["B"]]))
     add("stack", lambda P, r: darsia.stack([P["M1"], P["M2"]]))
+    add("stack_series_then_single", lambda P, r: darsia.stack([P["S"], P["Sone"]]))
+    add("stack_three", lambda P, r: darsia.stack([P["M1"], P["M2"], P["Sone"]]))
     # resizing, reduction
     add("resize_shape", lambda P, r: darsia.resize(P["A"], shape=(2, 2), interpolation="inter_area"))
     add("resize_ref", lambda P, r: darsia.resize(P["A"], ref_image=P["Wt"]))
